@@ -343,6 +343,8 @@ var Describe = &atree.VerifDescribe{
 			return fmt.Sprintf("v%d", x.Pay)
 		case FS:
 			return fmt.Sprintf("f%d", x.Pay)
+		case NK:
+			return fmt.Sprintf("v%d", x.TV().Pay)
 		}
 		return fmt.Sprintf("?%T", s)
 	},
@@ -381,7 +383,7 @@ func DecMode() cbor.DecMode {
 var _ atree.ComparableStorable = TV{}
 
 func (v TV) Equal(o atree.Storable) bool {
-	t, ok := o.(TV)
+	t, ok := AsTVStorable(o)
 	return ok && t == v
 }
 func (v TV) Less(o atree.Storable) bool {
@@ -395,3 +397,68 @@ func (v TV) Less(o atree.Storable) bool {
 	return v.Size < t.Size
 }
 func (v TV) ID() string { return fmt.Sprintf("tv%d.%d", v.Size, v.Pay) }
+
+// NK ("named key") is the harness's SECOND comparable key type.  It is written exactly like the TV with
+// the same content (a CBOR byte string holding the name, at most 8 bytes: TV() gives that value, the
+// decoder hands it back as a TV and the dumps render it as one), but its ComparableStorable.ID() is the
+// BARE NAME: unlike TV's "tv<size>.<pay>" it is not self-delimiting - names may be prefixes of each
+// other, concatenate to the same string ({"ab","c"} / {"a","bc"}), be empty - so whatever the library
+// builds out of the IDs of several keys (compactmap_extradata.go: makeCompactMapTypeID) has to keep
+// them apart by itself.  Less is the lexicographic order of the names.
+type NK struct{ Name string }
+
+var _ atree.Value = NK{}
+var _ atree.ComparableStorable = NK{}
+
+// ValidNK: the name is representable as a TV (content = the first 8 bytes).
+func ValidNK(name string) bool { return len(name) <= 8 }
+
+func (k NK) TV() TV { return tvFromBytes([]byte(k.Name), 0) }
+
+func (k NK) Encode(e *atree.Encoder) error                      { return e.CBOR.EncodeBytes([]byte(k.Name)) }
+func (k NK) ByteSize() uint32                                   { return k.TV().Size }
+func (k NK) StoredValue(atree.SlabStorage) (atree.Value, error) { return k, nil }
+func (k NK) ChildStorables() []atree.Storable                   { return nil }
+func (k NK) CanCopyNonRefSimple() bool                          { return true }
+func (k NK) CopyNonRefSimple() (atree.Storable, error)          { return k, nil }
+func (k NK) Storable(storage atree.SlabStorage, addr atree.Address, maxInline uint32) (atree.Storable, error) {
+	return k, nil
+}
+func (k NK) String() string { return k.TV().String() }
+func (k NK) Equal(o atree.Storable) bool {
+	t, ok := AsTVStorable(o)
+	return ok && t == k.TV()
+}
+func (k NK) Less(o atree.Storable) bool {
+	if n, ok := o.(NK); ok {
+		return k.Name < n.Name
+	}
+	return false
+}
+func (k NK) ID() string { return k.Name }
+
+// AsTV reads a key value of either key type as the TV it is written as.
+func AsTV(v atree.Value) (TV, bool) {
+	switch x := v.(type) {
+	case TV:
+		return x, true
+	case NK:
+		return x.TV(), true
+	case FV: // failing.go: a TV whose Storable() can fail
+		return x.TV, true
+	}
+	return TV{}, false
+}
+
+// AsTVStorable is AsTV for storables.
+func AsTVStorable(s atree.Storable) (TV, bool) {
+	switch x := s.(type) {
+	case TV:
+		return x, true
+	case NK:
+		return x.TV(), true
+	case FS: // failing.go: read WITHOUT calling its StoredValue()
+		return x.TV, true
+	}
+	return TV{}, false
+}
